@@ -287,7 +287,7 @@ CHECKS["C12"] = dict(
 CHECKS["C16"] = dict(
     title="Sparse and dense rows are interchangeable; the sparse tree is a correct map",
     quick=T([("c16_cotree", 1), ("c16_linexpr", 1)], cases=120000, secs=45),
-    thorough=T([("c16_cotree", 1), ("c16_linexpr", 1)], cases=600000, secs=600, flavour="san"),
+    thorough=dict(T([("c16_cotree", 1), ("c16_linexpr", 1)], cases=600000, secs=600, flavour="san"), fuzz=dict(target="c16_cotree", secs=240)),
     rule="c16_cotree: stateful sequences (<= 200 steps) of insert (plain / with data / fresh, stale and end hints), erase (key, iterator, "
          "while iterating), index shifts, resize, swaps, reset (one / range / after), combine*, linear_combine (full and sub-range), normalize, "
          "bisect*, lower_bound/find with hints, copy/assign, construction from Dense_Row on CO_Tree and Sparse_Row, with bulk phases growing rows "
@@ -296,7 +296,7 @@ CHECKS["C16"] = dict(
          "and mixed-representation Linear_Expression / Constraint / Generator / Congruence / Grid_Generator objects (and systems), all observable "
          "results compared and checked against a std::vector<mpz_class> model. Non-trivial: >= 1 rebuild of a tree with reserved size >= 31 or a "
          "stale-but-valid hint used; expressions with >= 3 non-zero coefficients, dimension >= 4, >= 3 mutating operations.",
-    technique="property-based testing (stateful model-based testing against std::map; dense/sparse differential testing)",
+    technique="property-based testing (stateful model-based testing against std::map; dense/sparse differential testing); thorough tier adds coverage-guided fuzzing (libFuzzer, ASan+UBSan) of the same structured decoder",
     level_text="Generated operation sequences against an ordered-map model and dense-vs-sparse differential comparison.",
     level_note="Private members reached through the explicit-instantiation access idiom; keys <= 10^6, <= ~600 stored elements.",
     design_ref="DESIGN.md 4 C16",
@@ -325,14 +325,14 @@ CHECKS["C08"] = dict(
 CHECKS["C15"] = dict(
     title="ascii_dump / ascii_load round-trips every object in every internal state",
     quick=T([("c15_dumpload", 1)], cases=1500000, secs=60),
-    thorough=T([("c15_dumpload", 1)], cases=5000000, secs=600, flavour="san"),
+    thorough=dict(T([("c15_dumpload", 1)], cases=5000000, secs=600, flavour="san"), fuzz=dict(target="c15_dumpload", secs=240)),
     rule="case = object reached through a generated history (C/NNC polyhedra, Grid, BD_Shape<mpq|double>, Octagonal_Shape<mpz|double>, Rational/Double "
          "boxes, Pointset_Powerset<C_Polyhedron>, Constraints_Product<C_Polyhedron,Grid>, constraint / generator / congruence / grid-generator "
          "systems and single rows in both representations, Linear_Expression, Variables_Set, Sparse_Row, Dense_Row, MIP_Problem and PIP_Problem before "
          "and after solving) dumped in whatever lazy state it is in and loaded into a target holding another value (other dimension, empty, "
          "universe, arbitrary history); oracle: load succeeds, OK(), second dump byte-identical, same value, and the same generated suffix of "
          "operations applied to original and clone gives identical dumps and answers. Non-trivial: history of >= 2 operations / solver dumped after a solve / >= 2 rows.",
-    technique="property-based testing (round-trip oracle on generated lazy states, behavioural equivalence of original and clone)",
+    technique="property-based testing (round-trip oracle on generated lazy states, behavioural equivalence of original and clone); thorough tier adds coverage-guided fuzzing (libFuzzer, ASan+UBSan) of the same structured decoder",
     level_text="Generated-history exploration of the dump/load round trip with a behavioural-equivalence follow-up.",
     level_note="Matrix<Row>, Bit_Matrix, DB_Matrix, OR_Matrix, Interval and Linear_Form are exercised only through the domains that embed them.",
     design_ref="DESIGN.md 4 C15",
